@@ -607,15 +607,43 @@ def gen_functional(repo: Path, notes: list) -> str:
 #   -> Lean `do` blocks over `Utv.Obj.OVal` (lean/Utv/GenEq/Support.lean)
 # -------------------------------------------------------------------------------------------------------------
 
-OBJ_CLASS_NAMES = {"bool", "int", "str", "list", "tuple", "set", "frozenset", "dict", "Options", "RuntimeContext"}
+OBJ_CLASS_NAMES = {"bool", "int", "str", "list", "tuple", "set", "frozenset", "dict", "Options", "RuntimeContext", "Mapping",
+                   "type", "Iterable"}
 OBJ_EXC_BUILTIN = {"TypeError", "ValueError", "KeyError", "IndexError", "AttributeError", "Exception"}
 
 
 class Sibling:
     """another translated function of the same output file"""
 
-    def __init__(self, py_name, lean_name, kind, n_args, is_property=False):
+    def __init__(self, py_name, lean_name, kind, n_args, is_property=False, fn=None, recv="self"):
         self.py_name, self.lean_name, self.kind, self.n_args, self.is_property = py_name, lean_name, kind, n_args, is_property
+        self.fn, self.recv = fn, recv
+
+    def positional(self, tr, call: "ast.Call") -> list:
+        """the call's arguments as the positional list of the callee's signature (keywords placed, defaults filled in)"""
+        if self.fn is None:
+            if call.keywords:
+                tr.fail(call, "keyword arguments to a callee whose signature is unknown")
+            return list(call.args)
+        a = self.fn.args
+        params = [x.arg for x in a.args if x.arg != self.recv]
+        defaults = dict(zip(reversed(params), reversed(a.defaults)))
+        if a.vararg or a.kwarg or a.kwonlyargs or any(isinstance(x, ast.Starred) for x in call.args) or len(call.args) > len(params):
+            tr.fail(call, "call form")
+        got = dict(zip(params, call.args))
+        for k in call.keywords:
+            if k.arg is None or k.arg not in params or k.arg in got:
+                tr.fail(call, "keyword argument")
+            got[k.arg] = k.value
+        out = []
+        for prm in params:
+            if prm in got:
+                out.append(got[prm])
+            elif prm in defaults:
+                out.append(defaults[prm])
+            else:
+                tr.fail(call, f"missing argument {prm}")
+        return out
 
 
 class ObjTranslator:
@@ -627,12 +655,25 @@ class ObjTranslator:
     """
 
     def __init__(self, fn, *, src_file, lean_name, kind, siblings, externals=(), ignored_calls=(), params=None,
-                 has_self=True, stop_before=None, result_locals=None, doc="", method_externals=(), consts=None):
+                 has_self=True, stop_before=None, result_locals=None, doc="", method_externals=(), consts=None,
+                 state=None, state_siblings=None, enter_ok=True, operators=None, constructors=None, owner_cls=None,
+                 module_tables=None):
         self.fn, self.src_file, self.lean_name, self.kind = fn, src_file, lean_name, kind
         self.siblings: dict[str, Sibling] = siblings
         self.externals, self.ignored_calls = set(externals), set(ignored_calls)
         self.method_externals = set(method_externals)
         self.consts = dict(consts or {})
+        first = fn.args.args[0].arg if fn.args.args else None
+        self.recv = first if (has_self and first in ("self", "cls")) else "self"
+        # the object whose changes travel with the outcome of a "mut" function: the receiver, or a named parameter
+        # (`context`) whose own methods (translated elsewhere: `state_siblings`) are called on it
+        self.state = state or self.recv
+        self.state_siblings: dict[str, Sibling] = dict(state_siblings or {})
+        self.enter_ok = enter_ok
+        self.operators: dict[str, Sibling] = dict(operators or {})
+        self.constructors: dict[str, Sibling] = dict(constructors or {})     # class name -> its `<Cls>_new`
+        self.owner_cls = owner_cls
+        self.module_tables: dict = dict(module_tables or {})
         self.has_self = has_self
         self.params = params
         self.stop_before = stop_before          # predicate on a statement: translation ends before it
@@ -676,7 +717,35 @@ class ObjTranslator:
         return "[" + ", ".join(self.atom(a) for a in args) + "]"
 
     def is_self(self, e) -> bool:
-        return self.has_self and isinstance(e, ast.Name) and e.id == "self"
+        return self.has_self and isinstance(e, ast.Name) and e.id == self.recv
+
+    def same_class(self, e) -> bool:
+        """a parameter annotated with the class that owns this method (`other: "Options"`)"""
+        if not (isinstance(e, ast.Name) and self.owner_cls):
+            return False
+        for a in self.fn.args.args:
+            if a.arg == e.id and a.annotation is not None:
+                an = a.annotation
+                return (isinstance(an, ast.Name) and an.id == self.owner_cls) or \
+                       (isinstance(an, ast.Constant) and an.value == self.owner_cls)
+        return False
+
+    def is_state(self, e) -> bool:
+        return self.kind == "mut" and isinstance(e, ast.Name) and e.id == self.state
+
+    @property
+    def recv_l(self) -> str:
+        return lname(self.recv)
+
+    @property
+    def state_l(self) -> str:
+        return lname(self.state)
+
+    def exc_class_call(self, e) -> bool:
+        """`exc.X(...)` / `TypeError(...)`: an exception object built as a value"""
+        return isinstance(e, ast.Call) and (
+            (isinstance(e.func, ast.Attribute) and isinstance(e.func.value, ast.Name) and e.func.value.id == "exc")
+            or (isinstance(e.func, ast.Name) and e.func.id in OBJ_EXC_BUILTIN))
 
     def val(self, e):
         if isinstance(e, ast.Name):
@@ -684,8 +753,11 @@ class ObjTranslator:
                 return "OVal.unprovided", True
             if e.id in self.declared or e.id in self.handler_vars:
                 if e.id in self.handler_vars:
-                    self.fail(e, "exception variable used as a value")
+                    return f"(Exc.toVal {lname(e.id)})", True      # the caught exception as an object
                 return lname(e.id), True
+            if e.id in OBJ_CLASS_NAMES:
+                # a builtin class handed on as a value (`type=dict` in an error): known by its name
+                return f"(OVal.obj \"type\" [(\"__name__\", (OVal.str {json.dumps(e.id)}))])", True
             if e.id in self.consts:
                 # a module-level integer constant, inlined with the value it has in the source now
                 return f"(OVal.int ({self.consts[e.id]}))", True
@@ -711,8 +783,12 @@ class ObjTranslator:
                 self.fail(e, "dict unpacking")
             items = ", ".join(f"({self.atom(k)}, {self.atom(v)})" for k, v in zip(e.keys, e.values))
             return f"(OVal.dict [{items}])", True
+        if isinstance(e, ast.BinOp) and isinstance(e.op, ast.BitAnd) and "__and__" in self.operators:
+            # `a & b` on `Options`: the translated `Options.__and__` (the left operand is its receiver)
+            sb = self.operators["__and__"]
+            return f"{sb.lean_name} W {self.atom(e.left)} {self.atom(e.right)}", False
         if isinstance(e, ast.BinOp):
-            op = {ast.Sub: "sub", ast.Add: "concat"}.get(type(e.op))
+            op = {ast.Sub: "sub", ast.Add: "concat", ast.Mult: "mul", ast.FloorDiv: "floordiv", ast.Mod: "mod"}.get(type(e.op))
             if not op:
                 self.fail(e, "operator")
             return f"{op} {self.atom(e.left)} {self.atom(e.right)}", False
@@ -736,32 +812,79 @@ class ObjTranslator:
             if isinstance(e.slice, ast.Slice):
                 self.fail(e, "slice")
             return f"index {self.atom(e.value)} {self.atom(e.slice)}", False
+        if isinstance(e, ast.Attribute) and isinstance(e.value, ast.Name) and (e.value.id, e.attr) in self.module_tables:
+            # a table of another module (`constant.FORMAT_MAP`), inlined as it is in the source now: a dict whose keys /
+            # values are the string literals, or the source text of anything else (class expressions)
+            ps = self.module_tables[(e.value.id, e.attr)]
+            items = ", ".join(f"((OVal.str {json.dumps(k)}), (OVal.str {json.dumps(v)}))" for k, v in ps)
+            return f"(OVal.dict [{items}])", True
         if isinstance(e, ast.Attribute):
-            if self.is_self(e.value) and e.attr in self.siblings and self.siblings[e.attr].is_property:
+            if (self.is_self(e.value) or self.same_class(e.value)) and e.attr in self.siblings and self.siblings[e.attr].is_property:
                 sb = self.siblings[e.attr]
                 if sb.kind != "pure":
                     self.fail(e, "property with effects")
-                return f"{sb.lean_name} W self_", False
+                return f"{sb.lean_name} W {self.atom(e.value)}", False
             return f"getattr {self.atom(e.value)} {json.dumps(e.attr)}", False
         if isinstance(e, ast.Call):
             return self.call(e)
+        if isinstance(e, ast.JoinedStr):
+            # an f-string: a message.  Its text is not modelled; it is a non-empty string only if a literal part is
+            if any(isinstance(p, ast.Constant) and isinstance(p.value, str) and p.value for p in e.values):
+                return "(OVal.obj \"<message>\" [])", True
+            self.fail(e, "f-string without literal text")
         self.fail(e)
 
     def call(self, e: ast.Call):
         f = e.func
+        if self.exc_class_call(e):
+            return self.exc_obj(e), True
+        # constructing an instance: `RuntimeContext(k=v, …)` / `self.__class__(k=v, …)` -> the translated `__init__`
+        cname = None
+        if isinstance(f, ast.Name) and f.id in self.constructors:
+            cname = f.id
+        elif isinstance(f, ast.Attribute) and f.attr == "__class__" and self.is_self(f.value) and self.owner_cls:
+            cname = self.owner_cls
+        if cname is not None:
+            if len(e.keywords) == 1 and e.keywords[0].arg is None and not e.args:
+                # `self.__class__(**specs)`: built from a dict of keyword arguments — the world's
+                return f"W.ext {json.dumps(cname + '(**)')} [{self.atom(e.keywords[0].value)}]", False
+            if cname in self.constructors:
+                sb = self.constructors[cname]
+                return f"{sb.lean_name} W {' '.join(self.atom(x) for x in sb.positional(self, e))}", False
+            self.fail(e, f"constructor of {cname}")
+        if isinstance(f, ast.Attribute) and self.is_self(f.value) and f.attr in self.siblings and not self.siblings[f.attr].is_property:
+            sb = self.siblings[f.attr]
+            if sb.kind != "pure":
+                self.fail(e, "call of a sibling with effects inside an expression")
+            args = sb.positional(self, e)
+            return f"{sb.lean_name} W {self.recv_l} {' '.join(self.atom(x) for x in args)}".rstrip(), False
+        if isinstance(f, ast.Attribute) and e.keywords and all(k.arg for k in e.keywords) \
+                and not any(isinstance(x, ast.Starred) for x in e.args) and not self.is_self(f.value) \
+                and not self.is_state(f.value) and f.attr not in ("append", "extend", "clear", "sort", "pop", "update"):
+            # a method of a foreign object called with keyword arguments (`data.isoformat(timespec="milliseconds")`):
+            # the world's, by name; a keyword argument travels as the pair (name, value)
+            kws = [f"(OVal.seq .tuple [(OVal.str {json.dumps(k.arg)}), {self.atom(k.value)}])" for k in e.keywords]
+            items = [self.atom(f.value)] + [self.atom(x) for x in e.args] + kws
+            return f"W.ext {json.dumps(f.attr)} [{', '.join(items)}]", False
         if e.keywords or any(isinstance(a, ast.Starred) for a in e.args):
             self.fail(e, "keyword/star arguments")
         a = e.args
         if isinstance(f, ast.Name):
             n = f.id
-            if n in ("unprovided", "callable", "isinstance", "bool", "hasattr"):
+            if n in ("unprovided", "callable", "isinstance", "issubclass", "bool", "hasattr"):
                 return f"(OVal.bool {self.cond(e)})", True
             if n == "len" and len(a) == 1:
                 return f"len {self.atom(a[0])}", False
             if n == "list" and len(a) == 1:
                 return f"toList {self.atom(a[0])}", False
+            if n == "dict" and len(a) == 1:
+                return f"dictCopy {self.atom(a[0])}", False
+            if n == "timedelta" and len(a) == 1:
+                return f"timedeltaDays {self.atom(a[0])}", False
             if n == "getattr" and len(a) == 2:
                 return f"getattrW W {self.atom(a[0])} {self.atom(a[1])}", False
+            if n == "getattr" and len(a) == 3:
+                return f"getattrD W {self.atom(a[0])} {self.atom(a[1])} {self.atom(a[2])}", False
             if n in self.siblings and not self.siblings[n].is_property and self.siblings[n].kind == "fn":
                 sb = self.siblings[n]
                 if len(a) != sb.n_args:
@@ -774,22 +897,17 @@ class ObjTranslator:
                 return f"W.call {lname(n)} {self.args_list(a)}", False
             self.fail(e, f"call of {n}")
         if isinstance(f, ast.Attribute):
-            if self.is_self(f.value) and f.attr in self.siblings and not self.siblings[f.attr].is_property:
-                sb = self.siblings[f.attr]
-                if sb.kind != "pure":
-                    self.fail(e, "call of a sibling with effects inside an expression")
-                if len(a) != sb.n_args:
-                    self.fail(e, "sibling arity")
-                return f"{sb.lean_name} W self_ {' '.join(self.atom(x) for x in a)}".rstrip(), False
             if f.attr == "get" and len(a) == 1:
                 return f"dictGet {self.atom(f.value)} {self.atom(a[0])}", False
+            if f.attr == "items" and not a:
+                return f"dictItems {self.atom(f.value)}", False
+            if f.attr == "format" and isinstance(f.value, ast.Constant) and isinstance(f.value.value, str):
+                return f"strFormat {self.atom(f.value)} {self.args_list(a)}", False
             if f.attr in self.method_externals and not self.is_self(f.value):
                 # the same method on *another* instance (`self.base.resolve(t)`): not unfolded, the world answers
                 return f"W.ext {json.dumps(f.attr)} {self.args_list([f.value] + list(a))}", False
             if f.attr in ("append", "extend", "clear", "sort", "pop", "update", "insert", "remove"):
                 self.fail(e, f"mutating method {f.attr} inside an expression")
-            if isinstance(f.value, ast.Name) and f.value.id in ("exc",):
-                self.fail(e, "exception constructor outside raise")
             # calling the value of an attribute: self.no_input(value), self.default_factory(), self.validator(f)
             return f"W.call {self.atom(f)} {self.args_list(a)}", False
         self.fail(e, "call form")
@@ -839,6 +957,12 @@ class ObjTranslator:
                 return f"(← isinstance {self.atom(a[0])} {self.cls_list(a[1])})"
             if n == "bool" and len(a) == 1:
                 return f"(← truthy {self.atom(a[0])})"
+            if n == "issubclass" and len(a) == 2:
+                try:
+                    return f"(← W.issubclass {self.atom(a[0])} {self.cls_list(a[1])})"
+                except Untranslatable:
+                    # the classes are a computed value (a key of a table): the world answers for that value
+                    return f"(← truthy (← W.ext \"issubclass\" [{self.atom(a[0])}, {self.atom(a[1])}]))"
             if n == "hasattr" and len(a) == 2:
                 return f"(← hasattrW W {self.atom(a[0])} {self.atom(a[1])})"
         return f"(← truthy {self.atom(e)})"
@@ -853,19 +977,24 @@ class ObjTranslator:
         return f"{ind}let mut {n} := {code}" if pure else f"{ind}let mut {n} ← {code}"
 
     def set_self_attr(self, attr: str, value_code: str, ind: str) -> str:
-        if self.kind != "mut":
-            raise Untranslatable(f"{self.src_file} assignment to self.{attr} in a function translated as pure")
-        return f"{ind}self_ ← setattr self_ {json.dumps(attr)} {value_code}"
+        if self.kind != "mut" or self.state != self.recv:
+            raise Untranslatable(f"{self.src_file} assignment to self.{attr} in a function that does not thread self")
+        return f"{ind}{self.state_l} ← setattr {self.state_l} {json.dumps(attr)} {value_code}"
 
     def ret(self, code: str, ind: str) -> str:
         if self.kind == "mut":
-            return f"{ind}return (self_, Outcome.ret {code})"
+            return f"{ind}return ({self.state_l}, Outcome.ret {code})"
         return f"{ind}return {code}"
 
     def exc_obj(self, exc) -> str:
         """`X(...)`, `exc.X(...)`, `X` as an exception object: class name + keyword arguments (messages are dropped)"""
         if isinstance(exc, ast.Call):
-            name = self.cls_name(exc.func) if not (isinstance(exc.func, ast.Name) and exc.func.id not in OBJ_EXC_BUILTIN) else exc.func.id
+            if isinstance(exc.func, ast.Attribute) and isinstance(exc.func.value, ast.Name) and exc.func.value.id == "exc":
+                name = exc.func.attr
+            elif isinstance(exc.func, ast.Name):
+                name = exc.func.id
+            else:
+                self.fail(exc, "exception class")
             for a in exc.args:
                 if not (isinstance(a, ast.JoinedStr) or (isinstance(a, ast.Constant) and isinstance(a.value, str))):
                     self.fail(exc, "positional exception argument that is not a message")
@@ -904,7 +1033,7 @@ class ObjTranslator:
             return n, (lambda code, ind: f"{ind}{n} ← {code}")
         if isinstance(v, ast.Attribute) and self.is_self(v.value):
             attr = v.attr
-            return f"(← getattr self_ {json.dumps(attr)})", (lambda code, ind: self.set_self_attr(attr, f"(← {code})", ind))
+            return f"(← getattr {self.recv_l} {json.dumps(attr)})", (lambda code, ind: self.set_self_attr(attr, f"(← {code})", ind))
         self.fail(v, "in-place update of something that is neither a local nor an attribute of self")
 
     def stmt(self, s, ind: str) -> list[str]:
@@ -929,7 +1058,7 @@ class ObjTranslator:
             else:
                 code = self.exc_obj(exc)
             if self.kind == "mut":
-                return [f"{ind}return (self_, Outcome.raise {code})"]
+                return [f"{ind}return ({self.state_l}, Outcome.raise {code})"]
             return [f"{ind}throw (Exc.raised {code})"]
         if isinstance(s, (ast.Assign, ast.AnnAssign)):
             if isinstance(s, ast.AnnAssign):
@@ -957,14 +1086,14 @@ class ObjTranslator:
                 return out
             self.fail(s, "assignment target")
         if isinstance(s, ast.AugAssign):
-            op = {ast.Add: "concat", ast.Sub: "sub"}.get(type(s.op))
+            op = {ast.Add: "concat", ast.Sub: "sub", ast.Mult: "mul"}.get(type(s.op))
             if not op:
                 self.fail(s, "augmented operator")
             t = s.target
             if isinstance(t, ast.Name) and t.id in self.declared:
                 return [f"{ind}{lname(t.id)} ← {op} {lname(t.id)} {self.atom(s.value)}"]
             if isinstance(t, ast.Attribute) and self.is_self(t.value):
-                return [self.set_self_attr(t.attr, f"(← {op} (← getattr self_ {json.dumps(t.attr)}) {self.atom(s.value)})", ind)]
+                return [self.set_self_attr(t.attr, f"(← {op} (← getattr {self.recv_l} {json.dumps(t.attr)}) {self.atom(s.value)})", ind)]
             self.fail(s, "augmented target")
         if isinstance(s, ast.If):
             pre = self.predeclare([s.body, s.orelse], ind)
@@ -978,7 +1107,11 @@ class ObjTranslator:
             if s.orelse:
                 self.fail(s, "for-else")
             pre = self.predeclare([s.body], ind)
-            it = f"(← iter {self.atom(s.iter)})"
+            if isinstance(s.iter, ast.Call) and isinstance(s.iter.func, ast.Name) and s.iter.func.id == "enumerate" \
+                    and len(s.iter.args) == 1 and not s.iter.keywords:
+                it = f"(← enumerate {self.atom(s.iter.args[0])})"
+            else:
+                it = f"(← iter {self.atom(s.iter)})"
             if isinstance(s.target, ast.Name):
                 self.declared.add(s.target.id)
                 out = pre + [f"{ind}for {lname(s.target.id)} in {it} do"]
@@ -998,6 +1131,19 @@ class ObjTranslator:
             return [f"{ind}continue"]
         if isinstance(s, ast.Pass):
             return [f"{ind}pure ()"]
+        if isinstance(s, ast.With) and len(s.items) == 1 and isinstance(s.items[0].context_expr, ast.Call) \
+                and isinstance(s.items[0].context_expr.func, ast.Attribute) and s.items[0].context_expr.func.attr == "enter" \
+                and self.is_state(s.items[0].context_expr.func.value) and "enter" in self.state_siblings \
+                and isinstance(s.items[0].optional_vars, ast.Name):
+            # `with context.enter(route) as c:` — `__enter__` hands the new context back, `__exit__` does nothing (checked
+            # by the extractor); what `enter` builds is the world's business here (`W.ext "enter"`), it is tied separately
+            if not self.enter_ok:
+                self.fail(s, "RuntimeContext.__enter__/__exit__ are not the modelled ones")
+            call = s.items[0].context_expr
+            args = self.state_siblings["enter"].positional(self, call)
+            v = s.items[0].optional_vars.id
+            out = [self.assign(v, (f"W.ext \"enter\" {self.args_list([call.func.value] + args)}", False), ind)]
+            return out + self.stmts(s.body, ind)
         if isinstance(s, ast.With):
             # `with self._lock:` — the lock is not modelled (sequential semantics): the body runs as it is
             for item in s.items:
@@ -1008,18 +1154,23 @@ class ObjTranslator:
                     self.fail(s, "with on something that is not a lock of self")
             return [f"{ind}-- with {ast.unparse(s.items[0].context_expr)}: (lock not modelled)"] + self.stmts(s.body, ind)
         if isinstance(s, ast.Try):
-            if s.orelse or s.finalbody or len(s.handlers) != 1:
+            if s.finalbody or len(s.handlers) != 1:
                 self.fail(s, "try form")
             h = s.handlers[0]
             if h.type is None:
                 self.fail(s, "bare except")
             classes = self.cls_list(h.type)
-            pre = self.predeclare([s.body, h.body], ind)
+            pre = self.predeclare([s.body, h.body, s.orelse], ind)
             ev = lname(h.name) if h.name else f"exc_{s.lineno}"
+            okv = f"noexc_{s.lineno}"
+            if s.orelse:
+                pre.append(f"{ind}let mut {okv} := true")
             out = pre + [f"{ind}try"]
             out += self.stmts(s.body, ind + "  ")
             out.append(f"{ind}catch {ev} =>")
             out.append(f"{ind}  if Exc.isA {ev} {classes} then")
+            if s.orelse:
+                out.append(f"{ind}    {okv} := false")
             if h.name:
                 self.handler_vars.add(h.name)
             out += self.stmts(h.body, ind + "    ") or [f"{ind}    pure ()"]
@@ -1027,7 +1178,26 @@ class ObjTranslator:
                 self.handler_vars.discard(h.name)
             out.append(f"{ind}  else")
             out.append(f"{ind}    throw {ev}")
+            if s.orelse:
+                # `else:` runs when the body raised nothing; what it raises itself is not caught by the handler
+                out.append(f"{ind}if {okv} then")
+                out += self.stmts(s.orelse, ind + "  ")
             return out
+        if isinstance(s, ast.Expr) and isinstance(s.value, ast.Call) and isinstance(s.value.func, ast.Attribute) \
+                and self.is_state(s.value.func.value) and self.state != self.recv and s.value.func.attr in self.state_siblings \
+                and ast.unparse(s.value.func) not in self.ignored_calls:
+            # `context.handle_error(e)`: a method of the threaded object, translated elsewhere; it hands the object back
+            # with its outcome, and a raise ends this function too
+            c = s.value
+            sb = self.state_siblings[c.func.attr]
+            if sb.kind != "mut":
+                self.fail(s, "state method that is not translated with effects")
+            args = " ".join(self.atom(x) for x in sb.positional(self, c))
+            r = f"r_{s.lineno}"
+            return [f"{ind}let {r} ← {sb.lean_name} W {self.state_l} {args}".rstrip(),
+                    f"{ind}{self.state_l} := {r}.1",
+                    f"{ind}if let Outcome.raise exc_{s.lineno} := {r}.2 then",
+                    f"{ind}  return ({self.state_l}, Outcome.raise exc_{s.lineno})"]
         if isinstance(s, ast.Expr) and isinstance(s.value, ast.Call):
             c = s.value
             if ast.unparse(c.func) in self.ignored_calls:
@@ -1040,6 +1210,9 @@ class ObjTranslator:
                 if m == "clear" and not a:
                     read, write = self.container_target(c.func.value)
                     return [write(f"dictClear {read}", ind)]
+                if m == "update" and len(a) == 1:
+                    read, write = self.container_target(c.func.value)
+                    return [write(f"dictUpdate {read} {self.atom(a[0])}", ind)]
             if isinstance(c.func, ast.Attribute) and c.func.attr == "sort" and not c.args and len(c.keywords) == 1 \
                     and c.keywords[0].arg == "key" and isinstance(c.keywords[0].value, ast.Lambda):
                 lam = c.keywords[0].value
@@ -1053,29 +1226,36 @@ class ObjTranslator:
                     self.declared.discard(v)
                 read, write = self.container_target(c.func.value)
                 return [write(f"sortByKey (fun {lname(v)} => do pure {body}) {read}", ind)]
+            # a call whose result is dropped (`item_context.transformer(item, t)`): evaluated for what it raises
+            code, pure = self.call(c)
+            return [f"{ind}let _ ← {code}"] if not pure else [f"{ind}pure ()"]
+        if isinstance(s, ast.ImportFrom) and all(a.asname is None and a.name in OBJ_CLASS_NAMES for a in s.names):
+            return []      # a class name used in isinstance / issubclass only
         self.fail(s)
 
     def translate(self) -> str:
         a = self.fn.args
         if a.vararg or a.kwarg or a.posonlyargs:
             self.fail(self.fn, "signature")
-        names = [x.arg for x in a.args if not (self.has_self and x.arg == "self")]
+        names = [x.arg for x in a.args if not (self.has_self and x.arg == self.recv)]
         kwonly = [x.arg for x in a.kwonlyargs]
         extra = list(self.params or [])
         ret_t = "M V (OVal V × Outcome V)" if self.kind == "mut" else "M V (OVal V)"
-        lean_params = (["self_"] if self.has_self else []) + [lname(x) for x in extra + names]
+        lean_params = ([self.recv_l] if self.has_self else []) + [lname(x) for x in extra + names]
         kw_param = " (kw_ : List (String × OVal V))" if kwonly else ""
         head = (f"def {self.lean_name} (W : World V) " + " ".join(f"({p} : OVal V)" for p in lean_params) + kw_param +
                 f" : {ret_t} := do")
         lines = [f"/-- {self.src_file}:{self.fn.lineno} `{self.fn.name}`{self.doc} -/", head, "  let _ := W"]
         reassigned = assigned_names_obj(self.fn.body)
         if self.has_self:
-            self.declared.add("self")
+            self.declared.add(self.recv)
         if self.kind == "mut":
-            lines.append("  let mut self_ := self_")
+            if self.state != self.recv and self.state not in names:
+                self.fail(self.fn, f"no parameter {self.state} to thread")
+            lines.append(f"  let mut {self.state_l} := {self.state_l}")
         for x in extra + names:
             self.declared.add(x)
-            if x in reassigned:
+            if x in reassigned and not (self.kind == "mut" and x == self.state):
                 lines.append(f"  let mut {lname(x)} := {lname(x)}")
         # keyword-only parameters arrive as a record; an absent one takes the default written in the signature
         for x, d in zip(kwonly, a.kw_defaults):
@@ -1114,7 +1294,7 @@ def assigned_names_obj(body) -> set[str]:
                     elif isinstance(t, ast.Tuple):
                         out |= {x.id for x in t.elts if isinstance(x, ast.Name)}
             elif isinstance(n, ast.Expr) and isinstance(n.value, ast.Call) and isinstance(n.value.func, ast.Attribute) \
-                    and n.value.func.attr in ("append", "extend", "clear", "sort") and isinstance(n.value.func.value, ast.Name):
+                    and n.value.func.attr in ("append", "extend", "clear", "sort", "update") and isinstance(n.value.func.value, ast.Name):
                 out.add(n.value.func.value.id)
     return out
 
@@ -1131,8 +1311,8 @@ def is_property(fn) -> bool:
     return any(isinstance(d, ast.Name) and d.id in ("property", "cached_property") for d in fn.decorator_list)
 
 
-def obj_file_header(title: str, ns: str) -> list[str]:
-    return ["import Utv.GenEq.Support", f"/-! GENERATED by tools/extract.py from {title} — do not edit. -/",
+def obj_file_header(title: str, ns: str, imports=()) -> list[str]:
+    return ["import Utv.GenEq.Support"] + [f"import {m}" for m in imports] + [f"/-! GENERATED by tools/extract.py from {title} — do not edit. -/",
             "set_option linter.unusedVariables false", f"namespace Utv.Gen.{ns}", "open Utv.Obj", "variable {V : Type}", ""]
 
 
@@ -1167,15 +1347,18 @@ FIELD_FUNCS = ["no_default", "always_provided", "is_case_insensitive", "get_defa
 
 
 def gen_group(repo: Path, notes: list, *, src_file: str, cls_name: str | None, funcs: list, ns: str, title: str,
-              externals=(), ignored_calls=(), module_funcs: dict | None = None, gate_ok=True) -> str:
+              externals=(), ignored_calls=(), module_funcs: dict | None = None, gate_ok=True, base_siblings=None,
+              imports=()) -> str:
     """funcs: list of dicts {py, lean?, kind, ...}; translated in the given order (callees first)."""
     tree = ast.parse((repo / src_file).read_text())
     cls = find_class(tree, cls_name) if cls_name else None
-    out = obj_file_header(title, ns)
-    siblings: dict[str, Sibling] = {}
+    out = obj_file_header(title, ns, imports)
+    siblings: dict[str, Sibling] = dict(base_siblings or {})
     for spec in funcs:
         py, kind = spec["py"], spec.get("kind", "pure")
         lean = spec.get("lean", py)
+        if "cls" in spec:
+            cls = find_class(tree, spec["cls"])
         fn = spec["find"](tree, cls) if "find" in spec else find_method(cls, py)
         n_extra = len(spec.get("params", []))
         if fn is None:
@@ -1183,7 +1366,7 @@ def gen_group(repo: Path, notes: list, *, src_file: str, cls_name: str | None, f
             out.append(stub(lean, kind, spec.get("arity", 1), f"{py} (not found)", kw=spec.get("kw", False)))
             continue
         has_self = spec.get("has_self", cls is not None)
-        n_args = len([a for a in fn.args.args if not (has_self and a.arg == "self")])
+        n_args = len([a for a in fn.args.args if not (has_self and a.arg in ("self", "cls"))])
         try:
             if not gate_ok:
                 raise Untranslatable(f"{src_file} {py}: a definition the translation relies on changed (see above)")
@@ -1191,12 +1374,17 @@ def gen_group(repo: Path, notes: list, *, src_file: str, cls_name: str | None, f
                                externals=externals, ignored_calls=ignored_calls, params=spec.get("params"),
                                has_self=has_self, stop_before=spec.get("stop_before"),
                                result_locals=spec.get("result_locals"), doc=spec.get("doc", ""),
-                               method_externals=spec.get("method_externals", ()), consts=spec.get("consts"))
+                               method_externals=spec.get("method_externals", ()), consts=spec.get("consts"),
+                               state=spec.get("state"), state_siblings=spec.get("state_siblings"),
+                               enter_ok=spec.get("enter_ok", True), operators=spec.get("operators"),
+                               constructors=spec.get("constructors"), owner_cls=spec.get("cls", cls_name),
+                               module_tables=spec.get("module_tables"))
             out.append(tr.translate() + "\n")
         except Untranslatable as e:
             notes.append(f"untranslatable {e} ({cls_name or ns}.{py})")
             out.append(stub(lean, kind, n_args + n_extra + (1 if has_self else 0), py, kw=bool(fn.args.kwonlyargs)))
-        siblings[py] = Sibling(py, lean, kind if has_self else "fn", n_args, is_property(fn))
+        siblings[py] = Sibling(py, lean, kind if has_self else "fn", n_args, is_property(fn), fn=fn,
+                               recv=(fn.args.args[0].arg if has_self and fn.args.args else "self"))
     out += [f"end Utv.Gen.{ns}", ""]
     return "\n".join(out)
 
@@ -1235,15 +1423,43 @@ def gen_options(repo: Path, notes: list, gate_ok: bool) -> str:
         ],
         ignored_calls={"warning_settings.warn"}, gate_ok=gate_ok)
     body += _group_body(part)
+    # --- Options.vacuum, Options.__and__
+    part = gen_group(
+        repo, notes, src_file=src, cls_name="Options", ns="Options", title="",
+        funcs=[{"py": "vacuum", "lean": "Options_vacuum", "arity": 1},
+               {"py": "__and__", "lean": "Options_and", "arity": 2}], gate_ok=gate_ok)
+    body += _group_body(part)
+    tree_cls = find_class(tree, "Options")
+    and_fn = find_method(tree_cls, "__and__")
+    operators = {"__and__": Sibling("__and__", "Options_and", "pure", 1, fn=and_fn)} if and_fn else {}
     # --- RuntimeContext
+    rc = find_class(tree, "RuntimeContext")
+    init_fn = find_method(rc, "__init__")
+    new_sib = Sibling("__init__", "RuntimeContext_new", "pure", 0, fn=init_fn) if init_fn else None
     part = gen_group(
         repo, notes, src_file=src, cls_name="RuntimeContext", ns="Options", title="",
         funcs=[
             {"py": "__init__", "lean": "RuntimeContext_init", "kind": "mut", "arity": 7},
+        ],
+        externals={"Options"}, gate_ok=gate_ok)
+    body += _group_body(part)
+    if init_fn is not None:
+        params = [a.arg for a in init_fn.args.args if a.arg != "self"]
+        ps = " ".join(f"({lname(x)} : OVal V)" for x in params)
+        body += ["/-- `RuntimeContext(…)`: a new instance through `__init__`; what `__init__` raises, the construction raises -/",
+                 f"def RuntimeContext_new (W : World V) {ps} : M V (OVal V) := do",
+                 f"  let r ← RuntimeContext_init W (OVal.obj \"RuntimeContext\" []) {' '.join(lname(x) for x in params)}",
+                 "  match r.2 with", "  | Outcome.raise e => throw (Exc.raised e)", "  | Outcome.ret _ => pure r.1", ""]
+    ctors = {"RuntimeContext": new_sib} if new_sib else {}
+    part = gen_group(
+        repo, notes, src_file=src, cls_name="RuntimeContext", ns="Options", title="",
+        funcs=[
+            {"py": "enter", "arity": 3, "operators": operators, "constructors": ctors},
             {"py": "raise_error", "kind": "mut", "arity": 1},
             {"py": "collect_tmp_error", "kind": "mut", "arity": 2},
             {"py": "clear_tmp_error", "kind": "mut", "arity": 1},
             {"py": "handle_error", "kind": "mut", "arity": 3},
+            {"py": "make_context", "cls": "Options", "lean": "Options_make_context", "arity": 4, "constructors": ctors},
         ],
         externals={"Options"}, gate_ok=gate_ok)
     body += _group_body(part)
@@ -1409,6 +1625,114 @@ def gen_codec_tables(repo: Path, notes: list) -> str:
     return "\n".join(out)
 
 
+def _siblings_of(repo: Path, rel: str, cls_name: str, ns: str, names_kinds: dict) -> dict:
+    """`Sibling` records for functions another generated file (`Utv.Gen.<ns>`) already defines"""
+    out = {}
+    try:
+        cls = find_class(ast.parse((repo / rel).read_text()), cls_name)
+    except Exception:
+        cls = None
+    for nm, kind in names_kinds.items():
+        fn = find_method(cls, nm)
+        if fn is None:
+            continue
+        n_args = len([a for a in fn.args.args if a.arg not in ("self", "cls")])
+        out[nm] = Sibling(nm, f"Utv.Gen.{ns}.{nm}", kind, n_args, is_property(fn), fn=fn, recv=fn.args.args[0].arg)
+    return out
+
+
+def check_context_manager(repo: Path, notes: list) -> bool:
+    """`with context.enter(r) as c:` is read as `c = context.enter(r)`: `__enter__` must return self, `__exit__` do nothing"""
+    try:
+        cls = find_class(ast.parse((repo / "utype/parser/options.py").read_text()), "RuntimeContext")
+        en, ex = find_method(cls, "__enter__"), find_method(cls, "__exit__")
+        ok = (en is not None and len(en.body) == 1 and ast.unparse(en.body[0]) == "return self"
+              and ex is not None and len(ex.body) == 1 and isinstance(ex.body[0], ast.Pass))
+    except Exception:
+        ok = False
+    if not ok:
+        notes.append("untranslatable utype/parser/options.py RuntimeContext.__enter__/__exit__ are not the modelled ones")
+    return ok
+
+
+def gen_parse(repo: Path, notes: list, gate_ok: bool) -> str:
+    """Gen/Parse.lean: the functions that convert one value under a context and report through it —
+    `ParserField.parse_value`, `BaseParser.parse_addition`, `Rule._parse_contains`, `Rule._validate_contains`.
+    The context is threaded (its `handle_error` is `Utv.Gen.Options.handle_error`); entering a sub-context and the
+    conversion itself are the world's (`W.ext "enter"`, calling the `transformer` of the entered context)."""
+    enter_ok = check_context_manager(repo, notes)
+    ctx_sibs = _siblings_of(repo, "utype/parser/options.py", "RuntimeContext", "Options",
+                            {"handle_error": "mut", "enter": "mut", "raise_error": "mut", "collect_tmp_error": "mut",
+                             "clear_tmp_error": "mut"})
+    field_sibs = _siblings_of(repo, "utype/parser/field.py", "ParserField", "Field",
+                              {"get_on_error": "pure", "is_required": "pure", "get_default": "pure"})
+    common = dict(kind="mut", state="context", state_siblings=ctx_sibs, enter_ok=enter_ok)
+    out = obj_file_header("utype/parser/field.py (parse_value), base.py (parse_addition), rule.py (_parse_contains, "
+                          "_validate_contains)", "Parse", imports=["Utv.Gen.Field", "Utv.Gen.Options"])
+    body = []
+    part = gen_group(repo, notes, src_file="utype/parser/field.py", cls_name="ParserField", ns="Parse", title="",
+                     funcs=[dict(py="parse_value", arity=4, **common)], base_siblings=field_sibs,
+                     ignored_calls={"context.collect_waring"}, gate_ok=gate_ok)
+    body += _group_body(part)
+    part = gen_group(repo, notes, src_file="utype/parser/base.py", cls_name="BaseParser", ns="Parse", title="",
+                     funcs=[dict(py="parse_addition", arity=4, **common)],
+                     ignored_calls={"context.collect_waring"}, gate_ok=gate_ok)
+    body += _group_body(part)
+    part = gen_group(repo, notes, src_file="utype/parser/rule.py", cls_name="Rule", ns="Parse", title="",
+                     funcs=[dict(py="_validate_contains", lean="validate_contains", kind="pure", arity=1),
+                            dict(py="_parse_contains", lean="parse_contains", arity=3, **common)],
+                     gate_ok=gate_ok)
+    body += _group_body(part)
+    return "\n".join(out + body + ["end Utv.Gen.Parse", ""])
+
+
+def _constant_tables(repo: Path) -> dict:
+    """(module alias, name) -> pairs, for the dict tables of specs/json_schema/constant.py"""
+    out = {}
+    try:
+        tree = ast.parse((repo / "utype/specs/json_schema/constant.py").read_text())
+    except Exception:
+        return out
+    for node in tree.body:
+        if isinstance(node, ast.Assign) and len(node.targets) == 1 and isinstance(node.targets[0], ast.Name) \
+                and isinstance(node.value, ast.Dict) and all(k is not None for k in node.value.keys):
+            ps = []
+            ok = True
+            for k, v in zip(node.value.keys, node.value.values):
+                kk = k.value if isinstance(k, ast.Constant) and isinstance(k.value, str) else ast.unparse(k)
+                if isinstance(v, ast.Constant) and isinstance(v.value, str):
+                    ps.append((kk, v.value))
+                elif isinstance(v, (ast.Dict, ast.Name)):
+                    ok = False
+                    break
+                else:
+                    ps.append((kk, ast.unparse(v)))
+            if ok:
+                out[("constant", node.targets[0].id)] = ps
+    return out
+
+
+def gen_generator(repo: Path, notes: list, gate_ok: bool) -> str:
+    """Gen/Generator.lean: `JsonSchemaGenerator._get_format / _get_primitive` (first table entry whose classes cover the
+    origin; the tables of constant.py are inlined)"""
+    return gen_group(
+        repo, notes, src_file="utype/specs/json_schema/generator.py", cls_name="JsonSchemaGenerator", ns="Generator",
+        title="utype/specs/json_schema/generator.py (_get_format, _get_primitive)",
+        funcs=[{"py": "_get_format", "lean": "get_format", "arity": 2, "module_tables": _constant_tables(repo)},
+               {"py": "_get_primitive", "lean": "get_primitive", "arity": 2, "module_tables": _constant_tables(repo)}],
+        gate_ok=gate_ok)
+
+
+def gen_functional_obj(repo: Path, notes: list, gate_ok: bool) -> str:
+    """Gen/FunctionalObj.lean: `distinct_add` of utils/functional.py (the list it extends in place is handed back)"""
+    src = "utype/utils/functional.py"
+    return gen_group(
+        repo, notes, src_file=src, cls_name=None, ns="FunctionalObj", title="utype/utils/functional.py (multi, distinct_add)",
+        funcs=[{"py": "multi", "find": _find_module_func(repo, src, "multi"), "has_self": False, "arity": 1},
+               {"py": "distinct_add", "find": _find_module_func(repo, src, "distinct_add"), "has_self": False, "arity": 2}],
+        gate_ok=gate_ok)
+
+
 def gen_encode(repo: Path, notes: list, gate_ok: bool) -> str:
     """Gen/Encode.lean: `js_unsafe` of utils/encode.py (the module constants it compares with are inlined)"""
     src = "utype/utils/encode.py"
@@ -1425,7 +1749,11 @@ def gen_encode(repo: Path, notes: list, gate_ok: bool) -> str:
     return gen_group(
         repo, notes, src_file=src, cls_name=None, ns="Encode", title="utype/utils/encode.py (js_unsafe)",
         funcs=[{"py": "js_unsafe", "find": _find_module_func(repo, src, "js_unsafe"), "has_self": False, "arity": 1,
-                "consts": consts}], gate_ok=gate_ok)
+                "consts": consts},
+               {"py": "duration_iso_string", "find": _find_module_func(repo, src, "duration_iso_string"),
+                "has_self": False, "arity": 1},
+               {"py": "from_time", "find": _find_module_func(repo, src, "from_time"), "has_self": False, "arity": 1}],
+        gate_ok=gate_ok)
 
 
 def gen_field(repo: Path, notes: list, gate_ok: bool) -> str:
@@ -1454,6 +1782,9 @@ def main():
     files["Options.lean"] = gen_options(repo, notes, unprov_ok)
     files["Registry.lean"] = gen_registry(repo, notes, unprov_ok)
     files["Encode.lean"] = gen_encode(repo, notes, unprov_ok)
+    files["Parse.lean"] = gen_parse(repo, notes, unprov_ok)
+    files["Generator.lean"] = gen_generator(repo, notes, unprov_ok)
+    files["FunctionalObj.lean"] = gen_functional_obj(repo, notes, unprov_ok)
     files["JsonTables.lean"] = gen_json_tables(repo, notes)
     files["CodecTables.lean"] = gen_codec_tables(repo, notes)
     files["NOTES.txt"] = "\n".join(notes) + ("\n" if notes else "")
